@@ -27,20 +27,20 @@ theorem json_scanner_terminates (qs : List Gen.Json.Query) (cap : Nat) (raw : By
 
 set_option maxRecDepth 8000 in
 /-- what `Model/JsonIdx.lean` transliterates: per function of parser.go, the index and slice expressions it may
-    evaluate (as a set) -/
+    evaluate (as a set; the names of variables are written `_`, as the extractor writes them) -/
 def modelledJsonIndexSets : List (String × List String) := [
-  ("json.LooksLikeObjectOrArray", ["raw[i]"]),
-  ("json.Parse", ["queries[queryType]"]),
-  ("json.consumeAny", ["b[n:]", "b[n]"]),
-  ("json.consumeArray", ["b[n:]", "b[n]", "p.currPath[:len(p.currPath)-1]"]),
-  ("json.consumeConst", ["b[i]"]),
-  ("json.consumeNumber", ["b[0]", "b[1:]"]),
-  ("json.consumeObject", ["b[n:]", "b[n:n+keyLen-1]", "b[n:n+valLen]", "b[n]", "p.currPath[:len(p.currPath)-1]", "qs[queryMatched]"]),
-  ("json.consumeSpace", ["b[0]", "b[1:]"]),
-  ("json.consumeString", ["b[n:]", "b[n]"]),
-  ("json.eq", ["path1[i]", "path2[i]"]),
-  ("json.queryPathMatch", ["qs[i]"]),
-  ("json.reset", ["p.currPath[0:0]"])]
+  ("json.LooksLikeObjectOrArray", ["_[_]"]),
+  ("json.Parse", ["_[_]"]),
+  ("json.consumeAny", ["_[_:]", "_[_]"]),
+  ("json.consumeArray", ["_.currPath[:len(_.currPath)-1]", "_[_:]", "_[_]"]),
+  ("json.consumeConst", ["_[_]"]),
+  ("json.consumeNumber", ["_[0]", "_[1:]"]),
+  ("json.consumeObject", ["_.currPath[:len(_.currPath)-1]", "_[_ : _+_-1]", "_[_ : _+_]", "_[_:]", "_[_]"]),
+  ("json.consumeSpace", ["_[0]", "_[1:]"]),
+  ("json.consumeString", ["_[_:]", "_[_]"]),
+  ("json.eq", ["_[_]"]),
+  ("json.queryPathMatch", ["_[_]"]),
+  ("json.reset", ["_.currPath[0:0]"])]
 
 /-- every index / slice expression of `found` is one the model knows for that function; a function the model
     does not know must not index at all -/
